@@ -148,7 +148,7 @@ def corr(seed, tier):
     cases = []
     for i in range(300 if tier == 'quick' else 6000):
         sc = explore.gen_scenario(rng, focus)
-        if sc.get('cancel') and sc['cancel']['kind'] == 'interrupt-result':
+        if sc.get('cancel') and sc['cancel']['kind'] in ('interrupt-result', 'interrupt-exit'):
             sc['cancel'] = None
         trace = {}
         run = explore.run_scenario(sc, observe=True, extra_install=make_installer(trace))
